@@ -56,6 +56,9 @@ class LoopScenario:
         e.leaf_poll = self.leaf_poll
         M = e.models
         ins = lambda rx, h: M.insert(0, (R(rx), h))
+        # last resort: a call to one of hannibal's own helper functions that builds a future / closure (e.g. an async fn
+        # extracted from the loop or from a restart strategy) is executed from its MIR body like everything else
+        M.append((R(r'^[a-z_][\w:]*(::<.*>)?$'), self.m_inline_helper))
         ins(r'^timeout_fut::<', self.m_inline_by_name('timeout_fut', 2))
         ins(r'^<A as actor::Actor>::started$', self.m_user_future('started'))
         ins(r'^<A as actor::Actor>::stopped$', self.m_user_future('stopped'))
@@ -133,6 +136,23 @@ class LoopScenario:
         # which stream? the mailbox (PollFn<Box<dyn FnMut..Payload..>>) or the attached stream S
         which = 'mailbox' if 'Payload<A>' in t.func else 'stream'
         return VAgg(name='leaf', fields={('f', 0): args[0]}, extra={'kind': 'next_' + which, 'n': 0})
+
+    def m_inline_helper(self, e, st, fr, t, args):
+        if not hasattr(self, '_resolver'):
+            import mirdump
+            from resolver import Resolver
+            self._resolver = Resolver(e.functions, mirdump.REPO)
+        try:
+            fn = self._resolver.resolve(t.func)
+        except Unsupported:
+            fn = None
+        if fn is None or fn.nargs != len(args):
+            return NotImplemented
+        rt = fn.ret_type or ''
+        if not ('{async' in rt or '{closure' in rt or '{coroutine' in rt or 'impl Future' in rt or 'impl futures::Future' in rt):
+            return NotImplemented       # plain helpers stay opaque at this level (their arguments are symbolic)
+        e.push_call(st, fn, args, ret_dest=t.dest, ret_bb=t.target, unwind_bb=t.unwind)
+        return None
 
     def m_now_or_never(self, e, st, fr, t, args):
         """FutureExt::now_or_never(fut): one poll with a no-op waker; Ready(v) -> Some(v), Pending -> None"""
